@@ -94,3 +94,13 @@ package types
 //@   lemma prefix_occurs_once: forall n int :: 0 <= n ==> !contains(substr("channel-" + dec(n), 1, len("channel-" + dec(n)) - 1), "channel-")
 //@   ensures roundtrip: forall n int :: 0 <= n && n < 18446744073709551616 && channelID == "channel-" + dec(n) ==> err == nil && result0 == n
 //@   ensures parsed_suffix: err == nil ==> channelID == "channel-" + rest && nth(strconv.ParseUint(rest, 10, 64), 1) == nil && result0 == nth(strconv.ParseUint(rest, 10, 64), 0)
+
+// ---- v2 aliasing writes performed when an UNORDERED channel opens (expected_keepers.go): each writes one key
+
+//@ contract interface ClientKeeperV2.SetClientCounterparty
+//@   modifies world(ctx)
+//@   ensures one_key: onlyKeyChanged(old(world(ctx)), world(ctx), "clients/" + channelID + "/counterparty")
+
+//@ contract interface ChannelKeeperV2.SetClientForAlias
+//@   modifies world(ctx)
+//@   ensures one_key: onlyKeyChanged(old(world(ctx)), world(ctx), channelID + "alias")
